@@ -15,11 +15,7 @@
 (* and in-place mutation can be expressed.  The fingerprint of an object   *)
 (* is everything reachable from it.                                        *)
 (***************************************************************************)
-EXTENDS Naturals, Sequences, FiniteSets, TLC
-
-(* configuration overlay: leaf-wise, the override wins (shared with        *)
-(* MechanismsTrace, where configurations are flattened to path -> value)   *)
-Overlay(f, g) == [k \in DOMAIN f \cup DOMAIN g |-> IF k \in DOMAIN g THEN g[k] ELSE f[k]]
+EXTENDS MechanismsOps, TLC
 
 CONSTANTS Ids,        \* catalogue ids
           Rules,      \* rules that may create a variant of each id
@@ -116,13 +112,17 @@ Spec == Init /\ [][Next]_vars
 (* ------------------------------ properties ----------------------------- *)
 
 (* no existing object's fingerprint changes on any action                  *)
-Frozen == \A o \in DOMAIN objs : Fingerprint(o) = snap[o]
+Fingerprints == [o \in DOMAIN objs |-> Fingerprint(o)]
 
-FrozenStep == [][\A o \in DOMAIN objs : Fingerprint(o)' = Fingerprint(o)]_vars
+Frozen == FrozenBetween(snap, Fingerprints)
+
+FrozenStep == [][FrozenBetween(Fingerprints, Fingerprints')]_vars
 
 (* every object behaves as the catalogue configuration overlaid by its own *)
 (* override only - whatever else was created or executed                   *)
-Local == \A o \in DOMAIN objs : Behaviour(o) = Overlay(Catalogue[objs[o].id], objs[o].ovr)
+Identity(c) == c   \* in the model the behaviour of a configuration is the configuration itself
+
+Local == \A o \in DOMAIN objs : LocalFor(Behaviour(o), Identity, Catalogue[objs[o].id], objs[o].ovr)
 
 (* no execution writes an object another execution is using (what the race *)
 (* detector observes on the real code)                                     *)
